@@ -6,6 +6,7 @@ package main
 
 import (
 	"bufio"
+	"crypto/sha256"
 	"fmt"
 	"math/rand"
 	"os"
@@ -13,8 +14,24 @@ import (
 	"strconv"
 	"strings"
 
+	abci "github.com/cometbft/cometbft/abci/types"
 	sdk "github.com/cosmos/cosmos-sdk/types"
 )
+
+func eventDigest(evs []abci.Event) string {
+	hh := sha256.New()
+	for _, e := range evs {
+		hh.Write([]byte(e.Type))
+		for _, a := range e.Attributes {
+			hh.Write([]byte{0})
+			hh.Write([]byte(a.Key))
+			hh.Write([]byte{1})
+			hh.Write([]byte(a.Value))
+		}
+		hh.Write([]byte{2})
+	}
+	return fmt.Sprintf("%d:%x", len(evs), hh.Sum(nil)[:12])
+}
 
 func genLine(c *Chain) string {
 	cfg := c.Cfg
@@ -30,6 +47,7 @@ func genLine(c *Chain) string {
 	for _, p := range cfg.Mint.Phases {
 		s += fmt.Sprintf(" %s %s", p.Inflation.BigInt(), p.YearCoefficient.BigInt())
 	}
+	s += fmt.Sprintf(" S %s %s", b2s(cfg.Subaccount.WagerEnabled), b2s(cfg.Subaccount.DepositEnabled))
 	return s
 }
 
@@ -91,8 +109,17 @@ func step(c *Chain, h *histWriter, o Op, mon *Monitors) string {
 			h.line("MON " + v)
 		}
 	}
+	if o.Kind == "BEGIN" && short == "ok" {
+		h.line("EVD " + eventDigest(c.LastBegin.Events))
+	}
 	if o.Kind == "END" && short == "ok" {
-		c.Commit()
+		h.line("EVD " + eventDigest(c.LastEnd.Events))
+		hash := c.Commit()
+		h.line(fmt.Sprintf("HASH %d %x", c.Height, hash))
+	}
+	if c.LastTx != nil {
+		h.line("EVD " + eventDigest(c.LastTx.Events) + fmt.Sprintf(" code=%d gas=%d", c.LastTx.Code, c.LastTx.GasUsed))
+		c.LastTx = nil
 	}
 	return short
 }
